@@ -45,6 +45,8 @@ type Exec struct {
 	Panic      string
 	Steps      int
 	Unfinished []int
+	// FinishOrder lists the thread ids in the order in which they completed (an observable outcome of the schedule).
+	FinishOrder string
 }
 
 type Sched struct {
@@ -243,6 +245,7 @@ func Run(bodies []func(), prefix []int, maxSteps int) *Exec {
 		switch e.kind {
 		case 2:
 			t.done = true
+			x.FinishOrder += fmt.Sprint(t.id) + ","
 		case 3:
 			t.done = true
 			x.Panic = e.panic
